@@ -301,7 +301,7 @@ namespace link_layer {
                         return true;
                     }
 
-                    link_layer.defered_ll_control_pdu_     = pdu;
+                    link_layer.defere_ll_control_pdu( pdu );
                     link_layer.defered_conn_event_counter_ = ::bluetoe::details::read_16bit( pdu_body + 3 );
 
                     return true;
@@ -736,6 +736,12 @@ namespace link_layer {
         // TODO Make handle_pending_ll_control() impossible to fail by checking PDUs immediately
         ll_result handle_pending_ll_control( std::uint16_t instance );
 
+        /*
+         * keeps a copy of the given PDU until its instant is reached. The PDU itself is handed back to
+         * the receive buffer right after it was handled and its memory is reused for the next received PDUs.
+         */
+        void defere_ll_control_pdu( const write_buffer& pdu );
+
         connection_details details() const;
 
         static constexpr unsigned       first_advertising_channel   = 37;
@@ -824,6 +830,8 @@ namespace link_layer {
         delta_time                      procedure_timeout_;
         std::uint16_t                   defered_conn_event_counter_;
         write_buffer                    defered_ll_control_pdu_;
+        // LL_CONNECTION_UPDATE_IND is the largest PDU that is deferred until its instant
+        std::uint8_t                    defered_ll_control_pdu_copy_[ layout_t::data_channel_pdu_memory_size( 12u ) ];
         connection_data_t               connection_data_;
         bool                            termination_send_;
         std::uint16_t                   used_features_;
@@ -1556,7 +1564,7 @@ namespace link_layer {
                 }
                 else
                 {
-                    defered_ll_control_pdu_ = pdu;
+                    defere_ll_control_pdu( pdu );
                 }
             }
             else if ( opcode == LL_TERMINATE_IND && size == 2 )
@@ -1595,7 +1603,7 @@ namespace link_layer {
                 }
                 else
                 {
-                    defered_ll_control_pdu_ = pdu;
+                    defere_ll_control_pdu( pdu );
                 }
             }
             else if ( opcode == LL_PING_REQ && size == 1 )
@@ -1733,6 +1741,15 @@ namespace link_layer {
         }
 
         return result;
+    }
+
+    template < class Server, template < std::size_t, std::size_t, class > class ScheduledRadio, typename ... Options >
+    void link_layer< Server, ScheduledRadio, Options... >::defere_ll_control_pdu( const write_buffer& pdu )
+    {
+        const std::size_t size = std::min( pdu.size, sizeof( defered_ll_control_pdu_copy_ ) );
+
+        std::copy( pdu.buffer, pdu.buffer + size, &defered_ll_control_pdu_copy_[ 0 ] );
+        defered_ll_control_pdu_ = write_buffer{ &defered_ll_control_pdu_copy_[ 0 ], size };
     }
 
     template < class Server, template < std::size_t, std::size_t, class > class ScheduledRadio, typename ... Options >
